@@ -24,6 +24,7 @@ structure SwitchEq (st : Static) (b : Bool) (d d' : Defs) (fuel : Nat) : Prop wh
 theorem switchEq (st : Static) (b : Bool) {d d' : Defs} (h : SameView d d') :  fuel, SwitchEq st b d d' fuel := by
   have hm : (st.withStatic b).opts.optMatcher = st.opts.optMatcher := rfl
   have hi : (st.withStatic b).opts.maxIter = st.opts.maxIter := rfl
+  have hii : (st.withStatic b).opts.innerIter = st.opts.innerIter := rfl
   intro fuel
   induction fuel with
   | zero =>
@@ -49,7 +50,7 @@ theorem switchEq (st : Static) (b : Bool) {d d' : Defs} (h : SameView d d') : 
       | nil => simp only [resolveMatches]
       | cons x rest => simp only [resolveMatches, ih.rmatch, ih.rmatches]
     路 funext ctx ms a; simp only [resolveEncoding, ih.rmatches]
-    路 funext ctx t e; simp only [evalAsm, ih.aiter, hi]
+    路 funext ctx t e; simp only [evalAsm, ih.aiter, hi, hii]
     路 funext ctx ns e l b i; rw [asmIterate, asmIterate]; simp only [ih.aonce, ih.aiter]
     路 funext ctx ns e l c r u
       cases ns with
